@@ -125,6 +125,45 @@ print(json.dumps(res))
 """
 
 
+def literal_twins_text(out):
+    """two Literal types whose value tuples are ==-equal but differ in type (Literal[0, 1] / Literal[False, True], Literal[1] /
+    Literal[True]), described one after the other in one process, in both orders: each message lists the type's own values"""
+    import typing as t
+    import pane
+    n = 0
+    pairs = [((0, 1), (False, True)), ((1,), (True,)), ((1, 'a'), (True, 'a')), ((0,), (False,))]
+
+    class Holder(pane.PaneBase):
+        a: t.Literal[0, 1] = 0
+        b: t.Literal[False, True] = False
+    with warnings.catch_warnings():
+        warnings.simplefilter('ignore')
+        for first, second in pairs + [(b, a) for a, b in pairs]:
+            for vals in (first, second):
+                for label, ty, data in (('top', t.Literal[vals], 'zzz'), ('list element', t.List[t.Literal[vals]], ['zzz']), ('optional', t.Optional[t.Literal[vals]], 'zzz')):
+                    n += 1
+                    try:
+                        pane.from_data(data, ty)
+                        continue
+                    except pane.ConvertError as e:
+                        text = str(e)
+                    except Exception as e:
+                        out.violation(f'C08:literal-twins:{type(e).__name__}', f'{label}: from_data({data!r}, {ty!r}) raised {type(e).__name__}', {'type': repr(ty)})
+                        continue
+                    missing = [repr(v) for v in vals if repr(v) not in text]
+                    if missing:
+                        out.violation('C08:literal-twins', f'{label}: the message for {data!r} as {ty!r} (described after Literal{list(first)!r}) does not mention its values {missing}: {text[:200]!r}',
+                                      {'type': repr(ty), 'described_before': repr(first)})
+        n += 1
+        try:
+            Holder.from_data({'a': 5, 'b': 5})
+        except pane.ConvertError as e:
+            text = str(e)
+            if 'False' not in text or 'True' not in text or '0' not in text.replace('False', '').replace('True', ''):
+                out.violation('C08:literal-twins', f'fields a: Literal[0, 1] and b: Literal[False, True] of one class: the message does not list each field\'s own values: {text[:300]!r}', {'type': 'Holder'})
+    return n
+
+
 def hashseed_determinism(out):
     """the same failure rendered in interpreters started with different string-hash seeds: the text may not differ"""
     import subprocess, json, os
@@ -259,6 +298,7 @@ def run(ctx, out):
             except Exception:
                 pass        # an escape is C04's business
     hashseed_determinism(out)
+    out.evaluations += literal_twins_text(out)
     if any(f in ctx['failed_files'] for f in ('Model/Render.v', 'Run/AgreeRender.v')):
         out.oblige('corr_text', False, 'renderer model does not build')
         return
